@@ -37,6 +37,15 @@ type Op struct {
 	Data string       `json:"data,omitempty"` // query data, hex
 	QH   int64        `json:"qh,omitempty"`   // query height
 	Only string       `json:"only,omitempty"` // execute only on the replica with this name (injections)
+	// (check) the request is a re-check: what the mempool sends after a commit for every transaction still waiting
+	Recheck bool `json:"recheck,omitempty"`
+}
+
+func (op *Op) checkType() abcitypes.CheckTxType {
+	if op.Recheck {
+		return abcitypes.CheckTxType_Recheck
+	}
+	return abcitypes.CheckTxType_New
 }
 
 // Scenario is a complete, replayable experiment.
@@ -208,6 +217,11 @@ func (r *Replica) Exec(op *Op) J {
 			r.Height++
 			r.InBlock = false
 			if r.QueryAfterCommit && !r.NoProj {
+				// first of all the previous height once more (its answers must be what they were when it was the
+				// latest), then the height just committed
+				if r.Height >= 2 {
+					ev["recommitted"] = r.QueryAll(r.Height - 1)
+				}
 				ev["committed"] = r.QueryAll(r.Height)
 			}
 		}
@@ -216,8 +230,8 @@ func (r *Replica) Exec(op *Op) J {
 		bz := unhex(op.Tx)
 		ev["tx"] = r.TxMeta(bz, op.Auth)
 		var resp abcitypes.ResponseCheckTx
-		pm := Call(func() { resp = r.App.Core.CheckTx(abcitypes.RequestCheckTx{Tx: bz, Type: abcitypes.CheckTxType_New}) })
-		ev["panic"] = pm
+		pm := Call(func() { resp = r.App.Core.CheckTx(abcitypes.RequestCheckTx{Tx: bz, Type: op.checkType()}) })
+		ev["panic"], ev["recheck"] = pm, op.Recheck
 		ev["resp"] = J{"ok": pm == "" && resp.Code == 0, "code": int(resp.Code), "log": clipLog(resp.Log)}
 	case "query":
 		ev["ev"] = "Query"
